@@ -65,6 +65,10 @@ FIXED = [
              "exception:RuntimeError:unix_name_with_carriage_return"],
      "fix: a carriage return in a UNIX socket path broke net_connections()",
      "UNIX socket bound to 'a\\rb' -> 'a\\r'; bound to 'a\\r b c' -> RuntimeError('malformed line') for everybody"),
+    ("C11", ["laddr_wrong:unix:unix_name_with_line_feed", "row_unexpected:unix:unix_name_with_line_feed",
+             "exception:RuntimeError:unix_name_with_line_feed"],
+     "fix: a line feed in a UNIX socket path broke net_connections()",
+     "UNIX socket bound to 'a\\nb' -> 'a'; bound to 'a\\nb c' -> RuntimeError('malformed line') for everybody (reported by a round-14 reviewer)"),
     ("C12", ["cmdline_cr_translated_to_lf", "environ_cr_translated_to_lf"], "fix: cmdline() and environ() turned carriage returns",
      "argument / variable containing \\r"),
     ("C13", ["memory_maps_path_wrong:trailing_whitespace_stripped"], "fix: memory_maps() stripped trailing whitespace", "mapped file whose name ends in a space"),
